@@ -715,7 +715,9 @@ func (env *Env) evalBin(x *EBin) (*Val, error) {
 
 func (env *Env) specEqual(a, b *Val) (string, error) {
 	// an interior pointer (&x.f, &a[i]) compared with nil: never nil, unless it is the nullable merge of nil with interior pointers
-	isNilConst := func(v *Val) bool { return v.Loc == nil && v.Clos == nil && v.T == nil && len(v.L) == 1 && v.L[0].T == "0" }
+	isNilConst := func(v *Val) bool {
+		return v.Loc == nil && v.Clos == nil && v.T == nil && len(v.L) == 1 && v.L[0].T == "0"
+	}
 	if a.Loc != nil && a.Clos == nil && isNilConst(b) {
 		if a.Loc.Nullable {
 			return eq(a.Loc.Ref, "0"), nil
